@@ -1504,6 +1504,13 @@ func c14FreshLists(p *Prog, r *Report, rule string) {
 									}
 								}
 							}
+							// the list itself, grown or trimmed: slices.Grow(list, n), slices.Clip(list); a copy
+							if len(x.Args) > 0 && (isFunc(info, x, "slices", "Grow") || isFunc(info, x, "slices", "Clip")) {
+								okRhs = f.rawPath(x.Args[0]) == lp
+							}
+							if isFunc(info, x, "slices", "Clone") {
+								okRhs = true
+							}
 						}
 						if !okRhs {
 							bad = p.pos(as) + ": the list is taken from " + types.ExprString(rhs)
